@@ -55,6 +55,7 @@ type Request struct {
 	KwV    []string `json:"kwv,omitempty"`
 	Recv   string   `json:"recv,omitempty"` // state of the receiver: mutable frozen iterating
 	Via    string   `json:"via,omitempty"`  // api | source
+	Gen    string   `json:"gen,omitempty"`  // which source generator produced Src (classification only)
 }
 
 type Reply struct {
@@ -565,6 +566,9 @@ func checkCase(req Request) error {
 	switch req.Kind {
 	case "src":
 		vk.S.Class("src:" + rep.Outcome)
+		if req.Gen != "" {
+			vk.S.Class("srcgen:" + req.Gen + ":" + rep.Outcome)
+		}
 		if rep.Parsed || rep.Outcome == "static" {
 			vk.S.NonTrivial(string(req.Src) + fmt.Sprint(req.Opts))
 		}
@@ -664,7 +668,10 @@ var bombs = []string{"(", "[", "{", "-", "not ", "lambda:", "x if x else ", "x.a
 func genSource(t *rapid.T) Request {
 	loadCorpus()
 	req := Request{Kind: "src", Opts: vk.Uniform(t, 64), Budget: []uint64{100, 1000, 100000}[vk.Uniform(t, 3)]}
-	switch vk.Uniform(t, 10) {
+	switch vk.Uniform(t, 11) {
+	case 10: // well-formed programs whose repetition count sits on an internal limit (255/256 arguments, 2^7, 2^14, 2^16 operands)
+		req.Src = []byte(countBoundary(t))
+		req.Gen = "count-boundary"
 	case 0, 1, 2: // token soup
 		n := 1 + vk.Uniform(t, 60)
 		var sb strings.Builder
@@ -731,6 +738,65 @@ func genSource(t *rapid.T) Request {
 		req.Src = req.Src[:65536]
 	}
 	return req
+}
+
+// countBoundary renders one construct repeated n times, n on or next to a limit of the resolver, compiler or
+// instruction encoding (255 arguments; 7-, 14- and 16-bit operands), inside an otherwise valid program.
+func countBoundary(t *rapid.T) string {
+	base := []int{127, 128, 255, 256, 257, 16383, 16384, 65535, 65536}[vk.Uniform(t, 9)]
+	n := base + vk.Uniform(t, 3) - 1
+	rep := func(unit func(i int) string, sep string, max int) string {
+		m := n
+		if m > max {
+			m = max
+		}
+		parts := make([]string, m)
+		for i := range parts {
+			parts[i] = unit(i)
+		}
+		return strings.Join(parts, sep)
+	}
+	lit := func(i int) string { return "0" }
+	name := func(i int) string { return fmt.Sprintf("a%d", i) }
+	named := func(i int) string { return fmt.Sprintf("a%d=0", i) }
+	pre := "def f(*a, **k):\n    return len(a) + len(k)\nL = [1, 2]\nD = {\"z\": 1}\n"
+	switch vk.Uniform(t, 16) {
+	case 0:
+		return pre + "r = f(" + rep(lit, ",", 20000) + ")\n"
+	case 1:
+		return pre + "r = f(" + rep(named, ",", 8000) + ")\n"
+	case 2:
+		return pre + "r = f(" + rep(lit, ",", 20000) + ", *L, **D)\n"
+	case 3:
+		return pre + "r = f(0, " + rep(named, ",", 8000) + ", **D)\n"
+	case 4:
+		return "def g(" + rep(name, ",", 10000) + "):\n    return a0\nr = g(" + rep(lit, ",", 10000) + ")\n"
+	case 5:
+		return "def g(" + rep(named, ",", 8000) + "):\n    return a0\nr = g()\nr2 = g(1, a1 = 2)\n"
+	case 6:
+		return "def g(*, " + rep(named, ",", 8000) + "):\n    return a0\nr = g(a0 = 1)\n"
+	case 7:
+		return "r = [" + rep(lit, ",", 30000) + "]\nq = (" + rep(lit, ",", 1000) + ",)\n"
+	case 8:
+		return "r = {" + rep(func(i int) string { return fmt.Sprintf("%d:0", i) }, ",", 9000) + "}\n"
+	case 9:
+		return "def g():\n" + rep(func(i int) string { return fmt.Sprintf("    a%d = %d\n", i, i) }, "", 5000) + "    return a0\nr = g()\n"
+	case 10:
+		// many variables captured by a nested function (cells and free variables)
+		return "def g():\n" + rep(func(i int) string { return fmt.Sprintf("    a%d = %d\n", i, i) }, "", 3000) + "    def h():\n        return " +
+			rep(name, "+", 3000) + "\n    return h\nr = g()()\n"
+	case 11:
+		return rep(func(i int) string { return fmt.Sprintf("g%d = \"s%d\"\n", i, i) }, "", 4500) + "r = g0\n"
+	case 12:
+		return "x = [0] * " + fmt.Sprint(n) + "\n" + rep(name, ",", 9000) + ", = x[:" + fmt.Sprint(min(n, 9000)) + "]\n"
+	case 13:
+		return "r = " + rep(func(i int) string { return "1" }, "+", 30000) + "\ns = " + rep(func(i int) string { return "\"a\"" }, "+", 15000) + "\n"
+	case 14:
+		return "def g(x):\n    if x == 0:\n        return 0\n" + rep(func(i int) string { return fmt.Sprintf("    elif x == %d:\n        return %d\n", i+1, i) }, "", 1800) + "    return -1\nr = g(" + fmt.Sprint(n) + ")\n"
+	default:
+		return pre + "def g():\n    return f(" + rep(func(i int) string { return "*L" }, ",", 2) + ")\nr = [" + rep(func(i int) string { return "x" }, ",", 3) + " for x in range(" + fmt.Sprint(n) + ")]\n" +
+			"s = \"%s\" * " + fmt.Sprint(n) + " % (" + rep(lit, ",", 20000) + ",)\n"
+	}
 }
 
 var graphOps = []string{
